@@ -9,6 +9,7 @@ import (
 	"golang.org/x/tools/go/ssa"
 
 	"dcmcheck/internal/load"
+	"dcmcheck/internal/ranges"
 	"dcmcheck/internal/report"
 )
 
@@ -164,7 +165,7 @@ func countedLoop(l *natLoop, idx ssa.Value) (bound ssa.Value, regular map[*ssa.B
 // frameCountSource: v is FrameCount() of some PixelData value, directly or as the result of a
 // helper that returns exactly its parameter's FrameCount() on every successful return
 // (info, n, err := openSource(src, dst, ...)). Returns that PixelData value in the caller's terms.
-func frameCountSource(v ssa.Value, depth int) (ssa.Value, bool) {
+func (c *Ctx) frameCountSource(v ssa.Value, depth int) (ssa.Value, bool) {
 	if depth > 2 {
 		return nil, false
 	}
@@ -179,6 +180,8 @@ func frameCountSource(v ssa.Value, depth int) (ssa.Value, bool) {
 			return nil, false
 		}
 		call, idx = c, x.Index
+	case *ssa.UnOp:
+		return c.frameCountField(x)
 	default:
 		return nil, false
 	}
@@ -208,7 +211,7 @@ func frameCountSource(v ssa.Value, depth int) (ssa.Value, bool) {
 			continue
 		}
 		n++
-		pd, ok := frameCountSource(ret.Results[idx], depth+1)
+		pd, ok := c.frameCountSource(ret.Results[idx], depth+1)
 		if !ok {
 			return nil, false
 		}
@@ -222,6 +225,174 @@ func frameCountSource(v ssa.Value, depth int) (ssa.Value, bool) {
 		return nil, false
 	}
 	return cc.Args[pi], true
+}
+
+// fieldLoad: v is a load of field f of the struct that root points to.
+func fieldLoad(v ssa.Value) (root ssa.Value, f int, ok bool) {
+	u, isLoad := v.(*ssa.UnOp)
+	if !isLoad || u.Op != token.MUL {
+		return nil, 0, false
+	}
+	fa, isFA := u.X.(*ssa.FieldAddr)
+	if !isFA {
+		return nil, 0, false
+	}
+	return fa.X, fa.Field, true
+}
+
+// ctorFieldValue: the value that field f of the object root points to was given when the object
+// was built, in terms of the function root lives in — for a field that is only ever assigned on
+// freshly allocated objects (so it still holds that value). root is a composite literal of this
+// function, or the result of a constructor that returns such a literal, with the field taken from
+// one of its parameters, on every successful return (frames, err := openFrameStream(src, dst)).
+func (c *Ctx) ctorFieldValue(root ssa.Value, f int, depth int) (ssa.Value, bool) {
+	if depth > 2 {
+		return nil, false
+	}
+	named := namedOfRecv(root.Type())
+	if named == nil || !c.fieldOnlySetAtConstruction(named, f) {
+		return nil, false
+	}
+	switch x := root.(type) {
+	case *ssa.Alloc:
+		if x.Referrers() == nil {
+			return nil, false
+		}
+		var val ssa.Value
+		n := 0
+		for _, r := range *x.Referrers() {
+			fa, ok := r.(*ssa.FieldAddr)
+			if !ok || fa.Field != f || fa.Referrers() == nil {
+				continue
+			}
+			for _, rr := range *fa.Referrers() {
+				if st, ok := rr.(*ssa.Store); ok && st.Addr == ssa.Value(fa) {
+					val = st.Val
+					n++
+				}
+			}
+		}
+		if n != 1 {
+			return nil, false
+		}
+		return val, true
+	case *ssa.Call, *ssa.Extract:
+		var call *ssa.Call
+		idx := 0
+		if ex, ok := x.(*ssa.Extract); ok {
+			call, _ = ex.Tuple.(*ssa.Call)
+			idx = ex.Index
+		} else {
+			call = x.(*ssa.Call)
+		}
+		if call == nil {
+			return nil, false
+		}
+		sc := call.Call.StaticCallee()
+		if sc == nil || sc.Blocks == nil || !load.InScope(sc) || len(call.Call.Args) != len(sc.Params) {
+			return nil, false
+		}
+		ei := errorResultIndex(sc)
+		pi, n := -1, 0
+		for _, b := range sc.Blocks {
+			if len(b.Instrs) == 0 {
+				continue
+			}
+			ret, ok := b.Instrs[len(b.Instrs)-1].(*ssa.Return)
+			if !ok || idx >= len(ret.Results) {
+				continue
+			}
+			if ei >= 0 && ei != idx && !isNilConst(ret.Results[ei]) {
+				continue
+			}
+			n++
+			v, ok := c.ctorFieldValue(ret.Results[idx], f, depth+1)
+			if !ok {
+				return nil, false
+			}
+			k := paramIndex(sc, v)
+			if k < 0 || (pi >= 0 && k != pi) {
+				return nil, false
+			}
+			pi = k
+		}
+		if n == 0 || pi < 0 {
+			return nil, false
+		}
+		return call.Call.Args[pi], true
+	}
+	return nil, false
+}
+
+// frameCountField: ld loads a counter field of a per-call cursor object (frames.count) that holds
+// FrameCount() of the PixelData kept in another field of the same object: every assignment of the
+// counter anywhere in the library is `x.count = x.src.FrameCount()`, the source field is fixed at
+// construction, and a method of the object that assigns the counter on each of its successful paths
+// is called on the same object before the load. Returns the PixelData in the caller's terms.
+func (c *Ctx) frameCountField(ld *ssa.UnOp) (ssa.Value, bool) {
+	root, cf, ok := fieldLoad(ld)
+	if !ok {
+		return nil, false
+	}
+	named := namedOfRecv(root.Type())
+	if named == nil {
+		return nil, false
+	}
+	sf := -1
+	setters := map[*ssa.Function]bool{}
+	for _, fn := range c.scopeFuncs() {
+		for _, b := range fn.Blocks {
+			for _, ins := range b.Instrs {
+				st, ok := ins.(*ssa.Store)
+				if !ok {
+					continue
+				}
+				fa, ok := st.Addr.(*ssa.FieldAddr)
+				if !ok || fa.Field != cf {
+					continue
+				}
+				if n := namedOfRecv(fa.X.Type()); n == nil || n.Obj() != named.Obj() {
+					continue
+				}
+				call, ok := st.Val.(*ssa.Call)
+				if !ok || !call.Call.IsInvoke() || call.Call.Method.Name() != "FrameCount" || !isDicomInterface(call.Call.Value.Type(), "PixelData") {
+					return nil, false
+				}
+				r2, f2, ok := fieldLoad(call.Call.Value)
+				if !ok || !sameBase(r2, fa.X) || (sf >= 0 && sf != f2) {
+					return nil, false
+				}
+				sf = f2
+				setters[fn] = true
+			}
+		}
+	}
+	if sf < 0 {
+		return nil, false
+	}
+	// a setter has certainly run on this object before the load
+	ran := false
+	for _, b := range ld.Parent().Blocks {
+		for _, ins := range b.Instrs {
+			call, ok := ins.(*ssa.Call)
+			if !ok || len(call.Call.Args) == 0 || !sameBase(call.Call.Args[0], root) {
+				continue
+			}
+			m := call.Call.StaticCallee()
+			if m == nil || !setters[m] || m.Signature.Recv() == nil || !instrDominates(call, ld) {
+				continue
+			}
+			for _, f := range ranges.MustStoreFields(m) {
+				if f == cf {
+					ran = true
+				}
+			}
+		}
+	}
+	if !ran {
+		return nil, false
+	}
+	return c.ctorFieldValue(root, sf, 0)
 }
 
 // callbackAddsFrame: function value fv (a closure or named function passed as the per-frame
@@ -476,6 +647,17 @@ func (c *Ctx) orderFramesRule(e *Eff) int {
 			var keepG []frameGet
 			for _, g := range gets[fn] {
 				pi, pj := paramIndex(fn, g.idx), paramIndex(fn, g.pd)
+				// the source may live in a field of a cursor object the helper is given
+				// (func (fs *frameStream) frame(i int) → fs.src.GetFrame(i)): at each call site it is
+				// the value that field was constructed with
+				pf := -1
+				if pj < 0 {
+					if root, f, ok := fieldLoad(g.pd); ok {
+						if k := paramIndex(fn, root); k >= 0 {
+							pj, pf = k, f
+						}
+					}
+				}
 				if innermostLoopOf(loops, g.site.Block()) != nil || pi < 0 || pj < 0 || lifted[g.site] || len(adds[fn]) > 0 {
 					keepG = append(keepG, g)
 					continue
@@ -509,6 +691,26 @@ func (c *Ctx) orderFramesRule(e *Eff) int {
 					keepG = append(keepG, g)
 					continue
 				}
+				pdAt := func(cs ssa.CallInstruction) (ssa.Value, bool) {
+					args := cs.Common().Args
+					if pj >= len(args) {
+						return nil, false
+					}
+					if pf < 0 {
+						return args[pj], true
+					}
+					return c.ctorFieldValue(args[pj], pf, 0)
+				}
+				resolvable := true
+				for _, cs := range sites {
+					if _, ok := pdAt(cs); !ok {
+						resolvable = false
+					}
+				}
+				if !resolvable {
+					keepG = append(keepG, g)
+					continue
+				}
 				lifted[g.site] = true
 				nLoops++
 				c.add("ORDER-FRAMES", fn, "frame fetch helper around "+addrExpr(g.pd)+".GetFrame", report.Discharged, c.P.Pos(g.site.Pos()),
@@ -519,7 +721,8 @@ func (c *Ctx) orderFramesRule(e *Eff) int {
 					if pi >= len(args) || pj >= len(args) || cs.Value() == nil {
 						continue
 					}
-					gets[caller] = append(gets[caller], frameGet{site: cs, fn: caller, idx: args[pi], pd: args[pj], val: cs.Value(), via: load.FuncName(fn)})
+					pdv, _ := pdAt(cs)
+					gets[caller] = append(gets[caller], frameGet{site: cs, fn: caller, idx: args[pi], pd: pdv, val: cs.Value(), via: load.FuncName(fn)})
 				}
 			}
 			if len(keepG) == 0 {
@@ -607,7 +810,7 @@ func (c *Ctx) orderFramesRule(e *Eff) int {
 			}
 			boundOK, arith := false, false
 			direct := false
-			if pd, ok := frameCountSource(bound, 0); ok && sameBase(pd, get.pd) {
+			if pd, ok := c.frameCountSource(bound, 0); ok && sameBase(pd, get.pd) {
 				boundOK, direct = true, true
 			}
 			for v := range backwardSlice(bound, 200) {
